@@ -1,13 +1,23 @@
 #!/usr/bin/env python3
-"""Prints the table of seeded changes and the checks' verdicts on them (from seeded/*/meta.json)."""
-import json, os, glob
+"""Regenerates the table of seeded changes in DESIGN.md (between the seeded-table markers) from seeded/*/meta.json."""
+import json, os, glob, re
 ROOT = os.path.dirname(os.path.dirname(os.path.abspath(__file__)))
-print("| seeded change | breaks | needs to manifest (short) | checks run -> verdict |")
-print("|---|---|---|---|")
+rows = []
 for d in sorted(glob.glob(os.path.join(ROOT, "seeded", "*"))):
     m = json.load(open(os.path.join(d, "meta.json")))
-    res = m.get("checks_against_it", {})
-    verdicts = ", ".join("%s: %s" % (p, "DETECTED" if r.get("exit") == 1 else "missed" if r.get("exit") == 0 else "tool error") for p, r in res.items())
-    note = "; ".join(r["note"] for r in res.values() if r.get("note"))
-    needs = (m.get("needs_to_manifest") or "").split(". ")[0][:160]
-    print("| %s | %s | %s | %s%s |" % (os.path.basename(d), m.get("breaks_property"), needs.replace("|", "\\|"), verdicts, (" (" + note[:120] + ")") if note else ""))
+    v = []
+    for p, r in m.get("checks_against_it", {}).items():
+        s = "%s detected" % p if r.get("exit") == 1 else "%s not flagged" % p
+        if r.get("first_run") or "first run of the check" in (r.get("note") or ""):
+            s += " (missed at first)"
+        v.append(s)
+    needs = (m.get("needs_to_manifest") or "").replace("\n", " ")
+    needs = re.split(r"(?<=[a-z\)])\. |; ", needs)[0][:150]
+    rows.append("| `%s` | %s | %s |" % (os.path.basename(d), needs.replace("|", "\\|"), "; ".join(v)))
+table = "| seeded change (`seeded/<id>/`) | needs, to manifest | quick checks run against it |\n|---|---|---|\n" + "\n".join(rows) + "\n"
+p = os.path.join(ROOT, "DESIGN.md")
+s = open(p).read()
+a = s.index("<!-- seeded-table-begin -->") + len("<!-- seeded-table-begin -->\n")
+b = s.index("<!-- seeded-table-end -->")
+open(p, "w").write(s[:a] + table + s[b:])
+print("%d seeded changes" % len(rows))
